@@ -126,12 +126,13 @@ def run(tier: str) -> int:
                                 inputs=profiles.inputs_exhaustive(4, 6, cap_q=150, cap_t=900), per_tu=2,
                                 configs=profiles.amr_configs(ams=((1, 'r'), (1, 'o')), unwinds=(1, 0))),
         # foreign exceptions (std and non-std) thrown by actions under every try_catch class
-        profiles.systematic_profile('catch', lambda k, f: k.startswith('tc'), True, 24, 90, ORACLES,
-                                    actions_mode='throw', heavy=True, inputs=profiles.inputs_exhaustive(3, 5, cap_q=90, cap_t=500), per_tu=2,
+        profiles.systematic_profile('catch', lambda k, f: k.startswith('tc'), True, 36, 120, ORACLES,
+                                    actions_mode='throwmany', heavy=True, inputs=profiles.inputs_exhaustive(3, 5, cap_q=90, cap_t=500), per_tu=2,
                                     configs=profiles.amr_configs(ams=((1, 'r'), (1, 'o')), unwinds=(1,)),
                                     ctx_names=['top', 'sor-first', 'seq-tail', 'in-tcrf']),
     ]
-    return engine.run_engine('C05', tier, ['PegtlVerif.Props.C05'], ps)
+    from .c05_mustif import mustif_part
+    return engine.run_engine('C05', tier, ['PegtlVerif.Props.C05'], ps, extra=lambda v, cov, rng: mustif_part(v, cov, rng, tier))
 
 
 def replay(path: str) -> int:
